@@ -28,7 +28,7 @@ ASSUMPTIONS = [
     "Reader-side tables (tag -> class, keys read per class, defaults) are extracted from SVG.parse and property_by_values on every run.",
     "Trees built through constructors whose Group/Use nodes carry a transform that was not folded into the children are a known finding (R20.3b).",
 ]
-FLOORS = {"R20.1": 10, "R20.2": 8, "R20.3": 3, "R20.4": 4, "R20.6": 10}
+FLOORS = {"R20.1": 10, "R20.2": 8, "R20.3": 3, "R20.4": 4, "R20.6": 10, "R20.7": 6}
 
 GEOM = {
     "Ellipse": {"cx", "cy", "rx", "ry"},
@@ -61,6 +61,13 @@ def run(ctx):
     viewport(ctx, fn, branches)
     paint(ctx, fn)
     order(ctx, branches)
+    # A rect radius that is 0 is left out, and a missing radius is read back as "auto" - the copy of the other one.  That is
+    # the same rectangle only because validation never leaves exactly one radius at zero: the corner table of C06 is an
+    # obligation of the round trip too.
+    ctx.rule("R20.7", "a rect radius left out as zero is read back as auto: validation never leaves exactly one radius at zero (obligations shared with C06)")
+    from . import c06
+
+    c06.corner_table(ctx.renamed("R20.7"))
 
 
 def emitted(ctx, body):
